@@ -19,7 +19,7 @@
 From Coq Require Import List NArith ZArith Bool.
 From Coq Require Import String.  (* for the string literal notation only *)
 From Orso Require Import Base.C16_Defs Gen.C16_Fields.
-From Orso Require Base.C06_Defs Model.C06 Model.C05.
+From Orso Require Base.C06_Defs Model.C06 Model.C05 Model.C08.
 Import ListNotations.
 
 (* ---------- text ---------- *)
@@ -260,6 +260,66 @@ Definition ty_array : str := Eval vm_compute in txt "ARRAY"%string.
 
 (* what OrsoTypes.parse is given besides the value: length, precision, scale, element_type of the column *)
 Definition params : Type := (pv * pv * pv * pv)%type.
+
+(* ---------- the length cut of BLOB / VARCHAR defaults (orso/types.py parse_bytes 292-300, parse_varchar 318-323) ----------
+   A concrete sub-model of the [parse] parameter below, for the two types whose cast reads the column's length:
+     parse_bytes:   value = x if bytes else str(x).encode("utf-8");  if length: value = value[:length]   (BYTES are cut)
+     parse_varchar: text = x.decode("utf-8") if bytes else str(x);   if length: text = text[:length]     (CHARACTERS are cut)
+   [text_cast m q v] is None where this sub-model says nothing (other types, other value classes, a length that is
+   neither None nor an int, text holding a lone surrogate).  The correspondence compares every observed parse result
+   of these two types with it ([parse_conforms]); Props/C16.v proves that its results are fixed points, which is the
+   premise [default_ok] of the round-trip theorems.  UTF-8 is Model/C08.v's. *)
+Definition m_blob : str := Eval vm_compute in txt "BLOB"%string.
+Definition m_varchar : str := Eval vm_compute in txt "VARCHAR"%string.
+
+(* l[:z] for z >= 0 *)
+Definition take {A : Type} (z : Z) (l : list A) : list A :=
+  firstn (Z.to_nat (Z.min z (Z.of_nat (List.length l)))) l.
+(* "if length: value = value[:length]" *)
+Definition cut {A : Type} (len : pv) (l : list A) : option (list A) :=
+  match len with
+  | PA ANone => Some l
+  | PA (AInt z) =>
+      if Z.eqb z 0 then Some l
+      else if Z.ltb z 0 then Some (firstn (Z.to_nat (Z.of_nat (List.length l) + z)) l)     (* l[:-k] *)
+      else Some (take z l)
+  | _ => None
+  end.
+(* str(v) for the value classes covered here *)
+Definition str_of (v : pv) : option str :=
+  match v with
+  | PA (AText s) => Some s
+  | PA (AInt z) => Some (render_int z)
+  | PA (ABool b) => Some (if b then txt_True else txt_False)
+  | _ => None
+  end.
+Definition text_cast (m : str) (q : params) (v : pv) : option (result pv) :=
+  let '(len, _, _, _) := q in
+  if str_eqb m m_blob then
+    match v with
+    | PA (ABytes b) => option_map (fun x => Ok (PA (ABytes x))) (cut len b)
+    | _ => match str_of v with
+           | Some s => if forallb Model.C08.scalar s
+                       then option_map (fun x => Ok (PA (ABytes x))) (cut len (Model.C08.utf8_encode s))
+                       else None
+           | None => None
+           end
+    end
+  else if str_eqb m m_varchar then
+    match v with
+    | PA (ABytes b) => match Model.C08.utf8_decode b with
+                       | Some s => option_map (fun x => Ok (PA (AText x))) (cut len s)
+                       | None => Some (Raise ValueError)            (* UnicodeDecodeError *)
+                       end
+    | _ => match str_of v with
+           | Some s => option_map (fun x => Ok (PA (AText x))) (cut len s)
+           | None => None
+           end
+    end
+  else None.
+(* the length is None or a non-negative int (what a type name VARCHAR[n] / BLOB[n] can say) *)
+Definition len_ok (len : pv) : bool :=
+  match len with PA ANone => true | PA (AInt z) => Z.leb 0 z | _ => false end.
 
 (* ---------- JSON values ---------- *)
 Inductive jval :=
@@ -664,6 +724,21 @@ Definition parse_of (t : parse_table) (m : str) (q : params) (v : pv) : result p
   | Some (_, _, _, r) => r
   | None => Raise Unmodelled
   end.
+(* every observed result of BLOB / VARCHAR parse is the one the concrete sub-model [text_cast] computes *)
+Definition parse_conforms (t : parse_table) : bool :=
+  forallb (fun '(m, q, v, r) => match text_cast m q v with
+                                | Some r' => result_eqb pv_eqb r r'
+                                | None => true
+                                end) t.
+(* the premise [default_ok] of the round-trip theorems, decided on a built column: the stored default of a typed
+   column is None or is left alone by its type's parse under the column's own parameters *)
+Definition default_fixed (P : str -> params -> pv -> result pv) (c : column) : bool :=
+  if is_none (c_default c) then true else
+  match c_type c with
+  | PA (ATy m) => if str_eqb m missing_member then true
+                  else result_eqb pv_eqb (P m (col_params c) (c_default c)) (Ok (c_default c))
+  | _ => true
+  end.
 Definition ser_table := list (atom * result jval).
 Definition ser_of (t : ser_table) (a : atom) : result jval :=
   match find (fun '(a', _) => atom_eqb a a') t with
@@ -717,6 +792,7 @@ Definition col_check (P : str -> params -> pv -> result pv) (x : kwargs * colobs
   match b with
   | Raise _ => true
   | Ok c =>
+      default_fixed P c &&
       result_eqb jval_eqb (to_json S c) (o_json o) &&
       result_eqb column_eqb (bind (to_json S c) (from_json P (o_fresh o))) (resolve (o_built o) (o_back o)) &&
       result_eqb column_eqb (to_flatcolumn P (o_fresh o) c) (resolve (o_built o) (o_flat o)) &&
@@ -762,6 +838,7 @@ Definition c16_schema_check (k : c16_schema_case) : bool :=
   let '(pt, top, cols, od, orest) := k in
   let '(n, al, pk, rcm, rce, dsm, dse) := top in
   let P := parse_of pt in
+  parse_conforms pt &&
   forallb (col_check P) cols &&
   match all_some (map built_ok cols) with
   | None => true                        (* some column could not be built: no schema to persist *)
@@ -777,7 +854,8 @@ Definition c16_schema_show (k : c16_schema_case) :=
   let '(pt, top, cols, od, orest) := k in
   let '(n, al, pk, rcm, rce, dsm, dse) := top in
   let P := parse_of pt in
-  (map (fun x => let b := init P class_flat (o_fresh (snd x)) (fst x) in
+  (map (fun '(m, q, v, _) => text_cast m q v) pt,
+   map (fun x => let b := init P class_flat (o_fresh (snd x)) (fst x) in
                  let S := ser_of (o_ser (snd x)) in
                  (b, bind b (to_json S), bind (bind b (to_json S)) (from_json P (o_fresh (snd x))),
                   bind b (to_flatcolumn P (o_fresh (snd x))), bind b describe)) cols,
@@ -794,13 +872,14 @@ Definition c16_flat_check (k : c16_flat_case) : bool :=
   let '(pt, cls, kw, fresh, ob, of) := k in
   let P := parse_of pt in
   let b := init P cls fresh kw in
+  parse_conforms pt &&
   result_eqb column_eqb b ob &&
   match b with
   | Raise _ => true
-  | Ok c => result_eqb column_eqb (to_flatcolumn P fresh c) (resolve ob of)
+  | Ok c => default_fixed P c && result_eqb column_eqb (to_flatcolumn P fresh c) (resolve ob of)
   end.
 
 Definition c16_flat_show (k : c16_flat_case) :=
   let '(pt, cls, kw, fresh, ob, of) := k in
   let P := parse_of pt in
-  (init P cls fresh kw, bind (init P cls fresh kw) (to_flatcolumn P fresh)).
+  (map (fun '(m, q, v, _) => text_cast m q v) pt, init P cls fresh kw, bind (init P cls fresh kw) (to_flatcolumn P fresh)).
